@@ -326,7 +326,9 @@ impl FsmExecutor {
     pub fn send_to_session(&self, session_id: SessionId, event: Event) -> Result<(), SendError<Box<Event>>> {
         match self.get_session_sender(session_id) {
             None => {
-                todo!("Handling of unknown session")
+                // Unknown (never started or removed) session: report the failure to the caller, which places
+                // error.communication in the sender's internal queue.
+                Err(SendError(Box::new(event)))
             }
             Some(sender) => sender.send(Box::new(event)),
         }
